@@ -357,7 +357,12 @@ func (c buildCtx) abstractBase(v reflect.Value) interface{} {
 		case reflect.Uint32, reflect.Uint64:
 			b = v.Uint()
 		case reflect.Float32:
-			b = uint64(math.Float32bits(float32(v.Float())))
+			// not v.Float(): widening to float64 quiets signalling NaNs
+			if f, ok := v.Interface().(float32); ok {
+				b = uint64(math.Float32bits(f))
+			} else {
+				b = uint64(math.Float32bits(float32(v.Float())))
+			}
 		case reflect.Float64:
 			b = math.Float64bits(v.Float())
 		case reflect.Bool:
